@@ -88,7 +88,7 @@ def run(ctx: Ctx) -> None:
         "permutation of `results`; non-trivial = >=2 result tables and (early stop or a repeated run)"
     )
     S.install_step_observers()
-    n = ctx.budget(25, 500)
+    n = ctx.budget(70, 1200)
     base_threads = {t.ident for t in threading.enumerate()}
     lean_reqs: List[Dict[str, Any]] = []
     metas: List[Any] = []
@@ -154,8 +154,13 @@ def run(ctx: Ctx) -> None:
             if S.tables_canon(again.results, sort_rows=linked) != want:
                 ctx.violation("stream", case, "batch run after a streamed run differs from the first batch run", S.tables_canon(again.results, sort_rows=linked), want)
         # model: drained trace accepted; yielded is a permutation of results
-        rr = S.run_session(sess, ctx.rng.choice(["sync", "thread"]), stream=True)
+        mmode = ctx.rng.choice(["sync", "thread"])
+        rr = S.run_session(sess, mmode, stream=True)
         obs = S.obs_of(exp, rr.events)
+        if rr.error is not None or rr.timed_out:
+            fclass = "threading-overlapping-steps-on-shared-cfw" if (mmode == "thread" and S.overlap_on_shared_fw(exp, rr.events)) else None
+            ctx.violation("stream", {"spec": spec, "mode": mmode}, f"draining the stream raised although the batch run succeeds: {(rr.error or 'timeout')[-200:]}", rr.error, "ok", finding_class=fclass)
+            continue
         lean_reqs.append({"op": "C13.accepts", "steps": S.lean_plan(exp)["steps"], "obs": obs})
         metas.append((spec, rr, nres))
     S.stop_flight_server()
